@@ -69,8 +69,14 @@ fn guard_counts_and_wakes_on_release() {
     }
 }
 
-/// dropping any live guard from an arbitrary state (count >= 1): one decrement, wake iff count == capacity   [C17]
+/// `std::thread::panicking()` is an INPUT of a destructor like any other: a guard dropped while its thread unwinds (the
+/// handler or the handshake future that owns it panicked) must release its slot and wake the waiter just the same.
+fn any_panicking() -> bool { kani::any() }
+
+/// dropping any live guard from an arbitrary state (count >= 1) — whether or not the thread is unwinding: one decrement,
+/// wake iff count == capacity   [C17]
 #[kani::proof]
+#[kani::stub(std::thread::panicking, any_panicking)]
 fn drop_from_arbitrary_state() {
     let (c, count, capacity, reg) = any_counter();
     kani::assume(count >= 1);
